@@ -144,7 +144,12 @@ impl<'a> Packet<'a> {
         offset: &mut usize,
         items_count: u16,
     ) -> crate::Result<Vec<T>> {
-        let mut section_items = Vec::with_capacity(items_count as usize);
+        // the count comes from the (untrusted) header: never reserve more entries than the
+        // remaining bytes could possibly hold
+        let mut section_items = Vec::with_capacity(std::cmp::min(
+            items_count as usize,
+            data.len().saturating_sub(*offset),
+        ));
 
         for _ in 0..items_count {
             #[cfg(simple_dns_verif)]
